@@ -72,17 +72,16 @@ Qed.
 
 Lemma ex_no_namespaces p :
   p = ex_left \/ p = ex_right ->
-  forall st, passes p = Ok (tt, st) -> ns_sound no_ns st /\ sure_sound no_sure st.
+  forall fl st, passes fl p = Ok (tt, st) -> ns_sound no_ns st /\ sure_sound no_sure st.
 Proof.
-  intros Hp st H. split.
-  - intros fid x f sp Hl. exfalso.
+  intros Hp fl st H. unfold passes in H. destruct (imports_fixpoint fl); (split; [|intros fid a Hs; discriminate Hs]).
+  all: intros fid x f sp Hl; exfalso;
     destruct Hp as [-> | ->]; vm_compute in H; inversion H; subst; clear H;
       unfold lookup_global in Hl; cbn in Hl;
       destruct (N.eqb fid 0); try discriminate; cbn in Hl;
       repeat match type of Hl with
              | context [String.eqb ?a ?b] => destruct (String.eqb a b); try discriminate
              end.
-  - intros fid a Hs. discriminate Hs.
 Qed.
 
 (* the theorem applies, both sides are accepted, and the results agree up to names *)
@@ -95,8 +94,8 @@ Proof.
     + apply ex_alpha.
     + reflexivity.
     + apply ex_no_namespaces. left. reflexivity.
-    + intros st H. apply (ex_no_namespaces ex_right (or_intror eq_refl) st H).
-  - destruct fl as [[] [] [] []]; split; vm_compute; reflexivity.
+    + intros st H. apply (ex_no_namespaces ex_right (or_intror eq_refl) fl st H).
+  - destruct fl as [[] [] [] [] []]; split; vm_compute; reflexivity.
 Qed.
 
 (* ---------------------------------------------------------------------------------------------- *)
@@ -116,7 +115,7 @@ Definition leak_p (loc : string) : past :=
          fn_start [sexpr (PIf [PIfBranch (Some (PBool true (s_ 3))) [defl loc 4 (PInt 5 (s_ 4))] (s_ 3)] (s_ 3)) 3;
                    sexpr (read_ "y" 6) 6]].
 
-Definition lexical : rflags := mkFlags true true true true.
+Definition lexical : rflags := mkFlags true true true true false.
 
 Lemma leak_alpha_lexical : alpha_ast lexical (fun s => s) no_ns no_sure (leak_p "y") (leak_p "z").
 Proof.
@@ -141,5 +140,5 @@ Theorem alpha_lexical_refuted : forall fl, if_truncates fl = false ->
   /\ ~ res_rel (resolve fl (leak_p "y")) (resolve fl (leak_p "z")).
 Proof.
   intros fl H. split; [exact leak_alpha_lexical|].
-  destruct fl as [[] [] [] []]; try discriminate H; vm_compute; intros E; discriminate E.
+  destruct fl as [[] [] [] [] []]; try discriminate H; vm_compute; intros E; discriminate E.
 Qed.
